@@ -733,7 +733,10 @@ impl World {
                     quote: Quote::Full,
                     ..HopSpec::default()
                 };
-                let from = host_addr(w.v6, node.addr);
+                // every third junk packet comes from the tracer's own target address (a gateway that
+                // is itself being traced, say): who sent a response says nothing about whose probe
+                // it quotes
+                let from = if idx % 3 == 0 { self.cfg.target_addr() } else { host_addr(w.v6, node.addr) };
                 let kind = RespKind::TimeExceeded(0);
                 let bytes = if let InjKind::UnhandledType { .. } = inj.kind {
                     // ICMP type the tracer does not handle (parameter problem / redirect)
